@@ -290,7 +290,17 @@ def _tok_text(node, b) -> str:
     lv: list = []
     _leaves(node, b, lv)
     lv.sort(key=lambda x: (x[2], x[3]))
-    return " ".join(b[s:e].decode("utf-8", "replace") for k, c, s, e, t, q in lv if k == "t")
+    out, lastq = [], 0
+    for k, c, s, e, t, q in lv:
+        if k != "t":
+            continue
+        txt = b[s:e].decode("utf-8", "replace")
+        # tokens of one string / path literal are contiguous text; everything else is separated by one blank
+        if out and not (q != 0 and q == lastq):
+            out.append(" ")
+        out.append(txt)
+        lastq = q
+    return "".join(out)
 
 
 def _val(node, b) -> dict:
